@@ -24,6 +24,7 @@ func init() {
 			runC20Extra(c)
 			runC20Reentrant(c)
 			runExemptType(c, "C20-EXEMPT")
+			runC20Facade(c)
 			base(c, "STATE")
 		},
 	})
